@@ -158,8 +158,11 @@ func (m *Model) write(k, v int, hooks []CalcCall, cause otter.DeletionCause) []e
 	ne := &mEntry{val: v, exp: never, ref: never}
 	if old != nil {
 		evs = append(evs, m.removeEvent(k, cause))
-		// the new node inherits the old deadlines before the calculators are consulted
-		ne.exp, ne.ref = old.exp, old.ref
+		// the new node inherits the old deadlines before the calculators are consulted; a write over an expired
+		// (unswept) entry is a creation and inherits nothing
+		if old.exp > m.now {
+			ne.exp, ne.ref = old.exp, old.ref
+		}
 	}
 	m.m[k] = ne
 	m.added += m.weightOf(v)
@@ -176,6 +179,16 @@ func (m *Model) remove(k int, cause otter.DeletionCause) []expEvent {
 	ev := m.removeEvent(k, cause)
 	delete(m.m, k)
 	return []expEvent{ev}
+}
+
+func withoutReadHooks(hooks []CalcCall) []CalcCall {
+	var out []CalcCall
+	for _, h := range hooks {
+		if h.Hook != "read" {
+			out = append(out, h)
+		}
+	}
+	return out
 }
 
 func hooksFor(hooks []CalcCall, k int) []CalcCall {
@@ -362,6 +375,9 @@ func (m *Model) Step(op string, res OpResult, hooks []CalcCall, loads []LoadCall
 			ex.nilChan = true
 			break
 		}
+		// an explicit refresh is not a read: a read hook consulted by it is not followed, so a deadline it moved shows as
+		// a mismatch (C11: a failed reload leaves the entry and its expiry untouched; C12: deadlines move on create, update, read)
+		hooks = withoutReadHooks(hooks)
 		want := expLoad{kind: "load", keys: []int{k}}
 		if e, ok := m.get(k); ok {
 			want = expLoad{kind: "reload", keys: []int{k}, olds: []int{e.val}}
@@ -378,6 +394,7 @@ func (m *Model) Step(op string, res OpResult, hooks []CalcCall, loads []LoadCall
 			ex.nilChan = true
 			break
 		}
+		hooks = withoutReadHooks(hooks)
 		var lk, rk, olds []int
 		seen := map[int]bool{}
 		ks := keyList(f[1])
